@@ -1722,6 +1722,15 @@ def run(tier):
               'is_relevant - visits every node of the sort it is given: a '
               'theory sort nested inside Array / Set / parametric sorts is '
               'found (shared with the dfs part of C12.R5)', sub12)
+    from .. import memo as _memo
+
+    def _memo_rule(chk, prog):
+        chk.rule('C14.R16', 'memoised functions of the mutator registry and the pass builders: the cached value depends only on the cache key and is not modified by its callers')
+        _memo.report(chk, prog, 'C14.R16', 'memoised functions of the registry / pass builders',
+                     lambda m, q: m.name in ('mutators', 'options', 'strategy_ddmin', 'strategy_hierarchical', 'argparsemod') or m.name.startswith('mutators_'),
+                     'the registry one strategy has pruned or specialised (an excluded mutator popped, an instance restricted to one command) is the registry the next one builds its passes from: enabled mutators are missing from the passes')
+
+    chk.guard(_memo_rule, chk, prog)
     extra = None
     if tier == 'thorough':
         from .. import selftest
